@@ -138,6 +138,20 @@ PROPS["C12"] = A("TestSim_C12", AUTH_RULE +
     assumptions=COMMON_ASSUME + ["the bit-level mutation space and the API-key byte space are sampled through the workload, not enumerated (pure-function clauses; DESIGN.md section 6)",
                                  "tokens issued under another key/serial are forged by the harness with the documented layout; backward clock steps are not simulated"])
 
+PROPS["C15"] = A("TestSim_C15",
+    "one evaluation = one simulated run of the 'calls' workload: 2-3 users x 1-2 sessions (gRPC and long-polling) on a p2p topic (plus a group and the users' other p2p topics as wrong targets), calls configured "
+    "with a 6 s establishment timeout, 4-18 actions drawn from invitations ({pub head.webrtc}), call events ringing/accept/offer/answer/ice-candidate/hang-up/unknown with the current, a stale, a future or a zero call id "
+    "sent from every session of caller, callee and outsiders (attached or not), leave, subscribe, abrupt disconnect, reconnect, ordinary publishes and waits of 1-9 s across the timeout. Three quarters of the runs are "
+    "sequential: every action is an isolated probe judged against a reference state machine (idle / ringing / established; who may ring, accept, exchange, hang up; busy; endings finished/declined/missed/disconnected) "
+    "that is compared with the topic's call record (white-box), with the replies (486 busy and 403 outside p2p leave no trace in store or traffic) and with the relays (the forwarded {info} reaches exactly the other "
+    "party's session once, unaltered, ignored events reach nobody and change nothing, no {info what=call} ever reaches a non-participant). One quarter are concurrent: the actions race and only the history is judged. "
+    "In every run, after all sessions have left: no topic still holds a call, and the store shows for every invitation exactly one ending and at most one earlier acceptance, each a replacement of the invitation "
+    "with its content and author; in sequential runs the ending is the one the model derived. Non-trivial = at least one call started and ended; distinct = distinct (program hash, schedule hash).",
+    probes=["fault.disconnect", "c15.accepted", "c15.busy_judged", "c15.ignored_event_judged", "c15.relay_judged_ringing", "c15.relay_judged_accept", "c15.relay_judged_offer",
+            "c15.relay_judged_answer", "c15.relay_judged_ice-candidate", "c15.end_finished", "c15.end_declined", "c15.end_missed", "c15.end_disconnected"],
+    assumptions=COMMON_ASSUME + ["an action that falls on the exact instant of the establishment timeout is judged leniently (timer and request are concurrent)",
+        "media payloads are opaque strings; ICE server configuration is a fixed stub"])
+
 NOT_APPLICABLE = {
     "C20": "pure functions of one input (id codecs, name spellings, JSON<->protobuf converters): no schedule, clock, fault, crash point or second party for a simulator to decide; see DESIGN.md section 6",
 }
